@@ -21,6 +21,13 @@ MIN_OBLIGATIONS = 8
 VB = "raggedshape.ViewBase."
 
 
+def _direct_dtype(y):
+    """the call itself names the configured dtype: a dtype= keyword or a direct positional argument (astype/view)"""
+    pos = list(y.a[1]) if len(y.a) > 1 else []
+    kws = [v for _k, v in (y.a[2] if len(y.a) > 2 else [])]
+    return any((attr_chain(v) or ("",))[-1] == "_dtype" for v in pos + kws)
+
+
 def check(ctx, tier):
     tk = Toolkit(ctx)
     gather(ctx, tk)
@@ -144,12 +151,22 @@ def threading(ctx, tk):
                     ("raggedshape.RaggedShape.__init__", "row lengths and their prefix sums use the configured index dtype")):
         f = ctx.func(q)
         fa = ctx.fa(f)
-        n_used = 0
+        # every conversion of a constructor parameter into an array either names the configured dtype or is nested in one that does
+        bare = []
         n_calls = 0
-        for n, c in find_calls(fa, lambda c: np_call(c, {"asanyarray", "array", "cumsum"}) or (c.a[0].k == "attr" and c.a[0].a[1] == "view")):
+        for n, c in find_calls(fa, lambda c: np_call(c, {"asanyarray", "asarray", "array"}) and c.a[1] and any(a.k == "param" for a in alts(c.a[1][0]))):
             n_calls += 1
-            if any((attr_chain(y) or ("",))[-1] == "_dtype" for y in walk(c)):
-                n_used += 1
-        ctx.decide("C19.d", f, what, True if (n_calls and n_used == n_calls) else False,
-                   "%d of %d geometry array constructions use self._dtype: codes of another width are later reinterpreted with the configured one" % (n_used, n_calls),
+            if not any((attr_chain(y) or ("",))[-1] == "_dtype" for y in walk(c)):
+                # is it wrapped by an enclosing conversion with the dtype?  (asanyarray(x).astype(self._dtype))
+                wrapped = False
+                for m_ in fa.cfg.stmts():
+                    for e_ in ([m_.ast.value] if m_.kind == "stmt" and isinstance(m_.ast, ast.Assign) else []):
+                        t_ = fa.term(e_, m_)
+                        for y in walk(t_):
+                            if y.k == "call" and y is not c and any(z == c for z in walk(y)) and _direct_dtype(y):
+                                wrapped = True
+                if not wrapped:
+                    bare.append(c)
+        ctx.decide("C19.d", f, what, (not bare) if n_calls else None,
+                   "`%s` converts a parameter without the configured index dtype: codes of another width are later reinterpreted with the configured one" % (bare[0] if bare else "",),
                    key="threaded", engine="E6")
